@@ -14,7 +14,7 @@ Proof.
   { rewrite <- (Z.mod_small c (2 ^ k)) by lia. rewrite <- Z.land_ones by lia.
     rewrite (Z.land_comm c), Z.land_assoc, Z.land_ones by lia.
     rewrite Z.mod_mul by lia. apply Z.land_0_l. }
-  pose proof (Z.add_lor_land (a * 2 ^ k) c) as E. rewrite L in E. lia.
+  rewrite <- Z.lxor_lor by exact L. rewrite <- Z.add_nocarry_lxor by exact L. reflexivity.
 Qed.
 
 Lemma lor_small_shiftl c g k : 0 <= k -> 0 <= c < 2 ^ k ->
